@@ -1,7 +1,7 @@
 //! C20: machine id formatter (through the verif hook), get_machine_id stability through the public
 //! path, handle_peer_message / filter_peer over generated headers against the scripted peer.
-use crate::common::*;
-use crate::peer;
+use vcore::common::*;
+use vcore::peer;
 use rustbus::message_builder::{MarshalledMessage, MessageBuilder};
 use std::num::NonZeroU32;
 
